@@ -93,6 +93,10 @@ class Summariser:
         if self.cls is None:
             return None
         o, meth = self.cls.find_method(name)
+        pre = '_' + self.cls.name.lstrip('_') + '__'
+        if meth is None and name.startswith(pre):
+            # the mangled spelling of a private name (getattr by string)
+            o, meth = self.cls.find_method(name[len(pre) - 2:])
         if meth is None and name.startswith('__') and not name.endswith('__'):
             o, meth = self.cls.find_method(
                 '_' + self.cls.name.lstrip('_') + name)
@@ -246,6 +250,21 @@ class Summariser:
                         self.env.pop(lam.args.args[0].arg, None)
                     else:
                         self.env[lam.args.args[0].arg] = saved
+        if isinstance(e, ast.Call) and isinstance(
+                e.func, ast.Lambda) and len(e.args) == 1 and len(
+                    e.func.args.args) == 1 and not e.keywords:
+            # (lambda s: ...)(x): a table cell written out in place
+            lam = e.func
+            nm = lam.args.args[0].arg
+            saved = self.env.get(nm)
+            self.env[nm] = self.sym(e.args[0])
+            try:
+                return self.sym(lam.body)
+            finally:
+                if saved is None:
+                    self.env.pop(nm, None)
+                else:
+                    self.env[nm] = saved
         if isinstance(e, ast.Call) and (
                 isinstance(e.func, ast.Name) and e.func.id not in self.env
                 or isinstance(e.func, ast.Call)):
